@@ -787,6 +787,9 @@ impl Mp4TrackWriter {
             stss.entries.push(self.sample_id);
         } else {
             if !is_sync {
+                // No sync sample so far: an empty stss says so (without the box every
+                // sample would be read back as a sync sample).
+                self.trak.mdia.minf.stbl.stss = Some(StssBox::default());
                 return;
             }
 
